@@ -31,6 +31,19 @@ fn models(tier: Tier) -> Vec<Model> {
             v.extend(gen::m5(1).into_iter().step_by(17));
         }
     }
+    // conflict-rich models with bystanders: unconstrained variables never appear in a conflict, so
+    // only a brancher's own bookkeeping (e.g. the default brancher's backup selector) can make it
+    // come back to them after backtracks, restarts and brancher switches
+    let rich: Vec<Model> = match tier {
+        Tier::Quick => gen::m3(0).into_iter().step_by(113).chain(gen::m5(0).into_iter().rev().step_by(401)).collect(),
+        Tier::Thorough => gen::m3(1).into_iter().step_by(211).chain(gen::m5(1).into_iter().rev().step_by(499)).collect(),
+    };
+    for m in rich {
+        let mut vars = m.vars.clone();
+        vars.push(VarDecl::interval(0, 2));
+        vars.push(VarDecl::from_values(&[-1, 1]));
+        v.push(Model::new(vars, m.cons.clone()));
+    }
     // models whose only purpose is domain shapes: no constraint at all over awkward domains
     for shape in [vec![0, 1], vec![-1, 1], vec![-3, -1, 2, 3], vec![0, 2], vec![-2, -1]] {
         let d = VarDecl::from_values(&shape);
@@ -51,6 +64,10 @@ fn branchers() -> Vec<BrancherSpec> {
     for s in 0..4 {
         v.push(BrancherSpec::Alternating(s, 1, 4));
         v.push(BrancherSpec::Alternating(s, 9, 7));
+    }
+    // switching on restarts meets the most brancher state (mid-tree switches): more partners
+    for (a, b) in [(0, 0), (2, 11), (13, 1), (6, 5), (3, 8)] {
+        v.push(BrancherSpec::Alternating(3, a, b));
     }
     v
 }
@@ -84,7 +101,7 @@ impl Property for C18 {
     }
     fn rule(&self, _tier: Tier) -> String {
         format!(
-            "All {} x {} variable/value selector pairs constructible through the public API (incl. random tie breakers), the default brancher, DynamicBrancher and AlternatingBrancher (4 strategies), {} branchers in total, x {} solver configurations (default, and two with restarts forced after every/few conflicts) x models over all domain shapes (holes, negatives, size 2, singletons); each run is a complete solution iteration so the brancher is driven through backtracks and restarts; observed at the engine (tap after Brancher::next_decision): every proposed predicate is over one of the brancher's variables and is neither true nor false; nothing is proposed only when none of its variables is unfixed; the run terminates and every solution fixes all variables. A case = (model, brancher, configuration).",
+            "All {} x {} variable/value selector pairs constructible through the public API (incl. random tie breakers), the default brancher, DynamicBrancher and AlternatingBrancher (4 strategies), {} branchers in total, x {} solver configurations (default, and two with restarts forced after every/few conflicts) x models over all domain shapes (holes, negatives, size 2, singletons) incl. conflict-rich models extended by unconstrained bystander variables; each run is a complete solution iteration so the brancher is driven through backtracks and restarts; observed at the engine (tap after Brancher::next_decision): every proposed predicate is over one of the brancher's variables and is neither true nor false; nothing is proposed only when none of its variables is unfixed; the run terminates and every solution fixes all variables. A case = (model, brancher, configuration).",
             NUM_VAR_SELECTORS,
             NUM_VAL_SELECTORS,
             branchers().len(),
